@@ -9,7 +9,8 @@ import re
 DATE_FORM = re.compile(r'^[0-9]{4}(-[0-9]{1,2}(-[0-9]{1,2})?)?([ T].*)?$', re.S)
 WIDTHS = ['byte', 'short', 'int', 'long']
 BITS = {'byte': 8, 'short': 16, 'int': 32, 'long': 64}
-TYPES = ['null', 'string', 'boolean', 'byte', 'short', 'int', 'long', 'float', 'double', 'date', 'timestamp']
+TYPES = ['null', 'string', 'boolean', 'byte', 'short', 'int', 'long', 'float', 'double', 'date', 'timestamp',
+         'binary', 'decimal', 'arrayL', 'arrayS', 'mapL', 'mapS', 'structL', 'structS']
 
 
 def _types():
@@ -18,6 +19,10 @@ def _types():
         'null': T.NullType(), 'string': T.StringType(), 'boolean': T.BooleanType(), 'byte': T.ByteType(),
         'short': T.ShortType(), 'int': T.IntegerType(), 'long': T.LongType(), 'float': T.FloatType(),
         'double': T.DoubleType(), 'date': T.DateType(), 'timestamp': T.TimestampType(),
+        'binary': T.BinaryType(), 'decimal': T.DecimalType(10, 2),
+        'arrayL': T.ArrayType(T.LongType()), 'arrayS': T.ArrayType(T.StringType()),
+        'mapL': T.MapType(T.StringType(), T.LongType()), 'mapS': T.MapType(T.StringType(), T.StringType()),
+        'structL': T.StructType([T.StructField('a', T.LongType())]), 'structS': T.StructType([T.StructField('a', T.StringType())]),
     }
 
 
@@ -269,6 +274,13 @@ class C18(Prop):
                 impl = call(gc(ty[f], ty[t], {}), None)
                 r = ask({'p': 'C18', 'op': 'null', 'from': f, 'to': t})['model']
                 m = r['str'] if isinstance(r, dict) and 'str' in r else r
+                if isinstance(r, dict) and r.get('refused'):
+                    # a pair the caster refuses for every value (not a cast at all): only that it IS refused is compared
+                    if isinstance(impl, dict) and impl.get('exc') in ('AnalysisException', 'NotImplementedError'):
+                        ctx.note('null:refused')
+                        continue
+                    return Mismatch('cast null from %s to %s: the model refuses this pair of types, the implementation does not'
+                                    % (f, t), impl, r, 'null-model:%s->%s' % (f, t))
                 if impl != m:
                     return Mismatch('cast null from %s to %s: implementation differs from model' % (f, t), impl, r,
                                     'null-model:%s->%s' % (f, t))
